@@ -57,6 +57,8 @@ fn with_world<R>(name: &str, cfg: Config, f: impl FnOnce(&mut dyn World) -> R) -
         "Mpod" => go!(MapWorld::<PodKey, u32>::new(cfg)),
         "M208" => go!(MapWorld::<Key8, Big200>::new(cfg)),
         "M64a" => go!(MapWorld::<Key8, Align64>::new(cfg)),
+        "M5" => go!(MapWorld::<KeyU8, P4>::new(cfg)),
+        "M6" => go!(MapWorld::<KeyU16, P4>::new(cfg)),
         "S1" => go!(SetWorld::<KeyU8>::new(cfg)),
         "S2" => go!(SetWorld::<KeyU16>::new(cfg)),
         "S8" => go!(SetWorld::<Key8>::new(cfg)),
@@ -64,6 +66,7 @@ fn with_world<R>(name: &str, cfg: Config, f: impl FnOnce(&mut dyn World) -> R) -
         "T24" => go!(TableWorld::<Elem24>::new(cfg)),
         "Tzd" => go!(TableWorld::<ZstDrop>::new(cfg)),
         "Tzp" => go!(TableWorld::<ZstPod>::new(cfg)),
+        "Tza" => go!(TableWorld::<ZstAlign>::new(cfg)),
         _ => None,
     }
 }
@@ -398,7 +401,7 @@ pub fn worker(o: WorkerOpts) -> i32 {
                 let ks: Vec<u32> = if o.thorough || n <= 4 {
                     (1..=n).collect()
                 } else {
-                    let mut v = vec![1, n, 1 + rng.below(n as u64) as u32, 1 + rng.below(n as u64) as u32];
+                    let mut v = vec![1, 2, n, n - 1, 1 + rng.below(n as u64) as u32, 1 + rng.below(n as u64) as u32];
                     v.sort();
                     v.dedup();
                     v
@@ -498,6 +501,18 @@ fn pick_targets(res: &RunResult, rng: &mut Rng, n: usize) -> Vec<(usize, Class, 
         return out;
     }
     let hot: Vec<_> = cands.iter().filter(|c| c.3).cloned().collect();
+    // operations that re-hashed stored elements without calling the allocator rehashed in place: the
+    // rarest growth path always gets a target of its own when the run reached it
+    use crate::scenario::Kd;
+    let inplace: Vec<_> = cands
+        .iter()
+        .filter(|c| c.1 == Class::Hash && c.2 > 2 && res.op_counts[c.0].1 == 0 && matches!(res.scenario.ops[c.0].k, Kd::Insert | Kd::TryInsert | Kd::Entry | Kd::TInsertUnique | Kd::TEntry | Kd::Replace | Kd::GetOrInsert | Kd::GetOrInsertWith | Kd::Reserve | Kd::Extend | Kd::FillNoAlloc | Kd::SetOpAssign))
+        .cloned()
+        .collect();
+    if !inplace.is_empty() {
+        let c = rng.pick(&inplace);
+        out.push((c.0, c.1, c.2.min(400)));
+    }
     for t in 0..n {
         let pool = if t % 2 == 0 && !hot.is_empty() { &hot } else { &cands };
         let c = rng.pick(pool);
